@@ -206,6 +206,8 @@ def rule_r4(ctx):
             else:
                 ctx.r.violation(rid, key_of(a.func, None, "stamp-read-guard"), "the read stamp is not tied to 'data received'", a.loc)
         if fn == "_flush_some":
+            if not any(isinstance(c, ast.Call) and dotted(c.func) == "self.send" for c in ast.walk(a.func.node)):
+                raise AnalysisError("_flush_some no longer contains the send loop (moved into a helper the normal form cannot expand): the stamp rule does not read this shape")
             if nodes and all(any(pol and isinstance(t, ast.Name) and local_derives_from_call(a.func, t.id, lambda c: dotted(c.func) == "self.send") is True for (t, pol) in guards_of(g, nd)) for nd in nodes):
                 ctx.r.ok(rid, "stamped when bytes were sent", a.loc)
             else:
